@@ -1,6 +1,398 @@
-//! C18 — not built yet.
+//! C18 — the C API is memory-safe under its ownership protocol and tolerates null.
+//!
+//! Cases (label: input):
+//!   * `hist: <history>`      a C17 call history (same engine, `crate::c17`) executed under the protocol:
+//!       every handle, string and filter that was handed out is destroyed exactly once by its destroy
+//!       function.  Oracles: (1) the counting allocator — after the clean-up the number of live heap
+//!       blocks of this thread is back at the baseline (no leak; a double free would drive it below);
+//!       (2) all C17 oracles.  Correspondence `C18 own …`: the objects the harness still holds at the
+//!       end of the history = the live set of the Lean ownership model.
+//!   * `null: <history>`      the tour + one call whose i-th pointer argument is null (other arguments
+//!       valid), for EVERY (function, pointer parameter) of the call table except the two exempt destroy
+//!       functions.  The call must return (an abort kills the process; `check` reports it), must answer
+//!       with its sentinel and leave a retrievable error message.  Correspondence `C18 hist …`.
+//!   * `nulltable: -`         the enumerated pairs against the translated inventory (`C18 nulltable`).
+//!   * `asan: <seed> <n>`     (thorough) n random histories executed by a copy of this harness built with
+//!       AddressSanitizer + LeakSanitizer (nightly, -Zsanitizer=address; fallback: valgrind memcheck on
+//!       the release binary); any report is an oracle failure, the history is in the detail.
+//!   * `asanbatch: <seed> <n>` what the sanitized child process executes.
+
+use crate::c17::{self, Call, A, CS, FUNCS};
 use crate::ctx::{CaseOut, Ctx};
+use crate::rng::Rng;
+use std::alloc::{GlobalAlloc, Layout, System};
+use std::cell::Cell;
+use std::process::Command;
+use std::sync::OnceLock;
 
-pub fn exec(_label: &str, _input: &str, _out: &mut CaseOut) {}
+// ------------------------------------------------------------------------------------------------
+// counting allocator: live heap blocks per thread
+// ------------------------------------------------------------------------------------------------
+pub struct Counting;
 
-pub fn generate(_ctx: &mut Ctx) {}
+thread_local! {
+    static LIVE: Cell<i64> = const { Cell::new(0) };
+}
+
+unsafe impl GlobalAlloc for Counting {
+    unsafe fn alloc(&self, layout: Layout) -> *mut u8 {
+        let p = System.alloc(layout);
+        if !p.is_null() {
+            let _ = LIVE.try_with(|c| c.set(c.get() + 1));
+        }
+        p
+    }
+    unsafe fn dealloc(&self, ptr: *mut u8, layout: Layout) {
+        let _ = LIVE.try_with(|c| c.set(c.get() - 1));
+        System.dealloc(ptr, layout)
+    }
+    unsafe fn alloc_zeroed(&self, layout: Layout) -> *mut u8 {
+        let p = System.alloc_zeroed(layout);
+        if !p.is_null() {
+            let _ = LIVE.try_with(|c| c.set(c.get() + 1));
+        }
+        p
+    }
+    unsafe fn realloc(&self, ptr: *mut u8, layout: Layout, new_size: usize) -> *mut u8 {
+        System.realloc(ptr, layout, new_size)
+    }
+}
+
+#[global_allocator]
+static GLOBAL: Counting = Counting;
+
+fn live_blocks() -> i64 {
+    LIVE.with(|c| c.get())
+}
+
+/// Runs the calls on the real C API only, then destroys everything that is still alive exactly once.
+/// Returns live blocks after minus before (0 = nothing leaked, nothing freed twice).
+fn leak_delta(calls: &[Call]) -> i64 {
+    let base = live_blocks();
+    {
+        let mut c = c17::CSide::default();
+        for call in calls {
+            let reply = c.step(call);
+            drop(reply);
+        }
+        // the pending error message is an owned string too
+        unsafe {
+            let p = libhaystack::c_api::err::last_error_message();
+            if !p.is_null() {
+                libhaystack::c_api::str::haystack_string_destroy(p as *mut std::os::raw::c_char);
+            }
+        }
+        c.destroy_all();
+        drop(c);
+    }
+    live_blocks() - base
+}
+
+fn ids(v: &[usize]) -> String {
+    v.iter().map(|k| k.to_string()).collect::<Vec<_>>().join(",")
+}
+
+fn exec_hist(input: &str, out: &mut CaseOut, with_own: bool) -> Option<c17::HistOut> {
+    let calls = match c17::parse_history(input) {
+        Some(c) => c,
+        None => {
+            out.fail("harness", "unparsable C18 history".into());
+            return None;
+        }
+    };
+    // first run: all C17 oracles, warms every lazy static of the library and of the harness
+    let h = c17::run_history(&calls);
+    out.nontrivial = h.n_calls >= 2;
+    for (k, d) in &h.fails {
+        out.fail(k, d.clone());
+    }
+    // second and third run under the counting allocator
+    let _ = leak_delta(&calls);
+    let delta = leak_delta(&calls);
+    if delta > 0 {
+        out.fail(
+            "leak",
+            format!("{delta} heap block(s) still allocated after every handle, string and filter was destroyed once"),
+        );
+    } else if delta < 0 {
+        out.fail("double_free", format!("{} more block(s) freed than allocated during the history", -delta));
+    }
+    out.stat(if delta == 0 { "alloc_balanced" } else { "alloc_unbalanced" });
+    if with_own {
+        out.req(
+            format!("C18 own {}", h.req),
+            format!("ok v:{} s:{} f:{}", ids(&h.live.0), ids(&h.live.1), ids(&h.live.2)),
+        );
+    }
+    Some(h)
+}
+
+// ------------------------------------------------------------------------------------------------
+// null arguments
+// ------------------------------------------------------------------------------------------------
+const EXEMPT: &[&str] = &["haystack_value_destroy", "haystack_string_destroy"];
+
+/// (function index, ordinal of the pointer parameter, position in the argument list)
+fn null_pairs() -> Vec<(usize, usize, usize)> {
+    let mut v = Vec::new();
+    for (f, (name, tys)) in FUNCS.iter().enumerate() {
+        if EXEMPT.contains(name) {
+            continue;
+        }
+        let mut ord = 0;
+        for (pos, t) in tys.iter().enumerate() {
+            if c17::is_ptr(*t) {
+                v.push((f, ord, pos));
+                ord += 1;
+            }
+        }
+    }
+    v
+}
+
+fn null_of(a: &A) -> A {
+    match a {
+        A::V(_) => A::V(None),
+        A::F(_) => A::F(None),
+        A::SP(_) => A::SP(None),
+        A::C(_) => A::C(CS::Null),
+        A::O(_) => A::O(false),
+        other => other.clone(),
+    }
+}
+
+/// the tour (valid calls of every function) followed by the function's first tour call with one null
+fn null_history(f: usize, pos: usize) -> Option<Vec<Call>> {
+    let mut calls = c17::tour();
+    // objects the tour destroys at its end are not used by the appended call: take the first call
+    let template = calls.iter().find(|c| c.f == f)?.clone();
+    let mut call = template;
+    call.args[pos] = null_of(&call.args[pos]);
+    calls.push(call);
+    Some(calls)
+}
+
+fn exec_null(input: &str, out: &mut CaseOut) {
+    let h = match exec_hist(input, out, false) {
+        Some(h) => h,
+        None => return,
+    };
+    out.req(format!("C18 hist {}", h.req), h.reply.clone());
+    // the last call is the one with the null argument
+    if !h.last_ref_failed {
+        out.fail("null_not_error", format!("the reference does not treat the call as failing: answer `{}`", h.last_reply));
+    }
+    if !h.reply.ends_with("e1") {
+        out.fail(
+            "null_no_message",
+            format!("no error message is retrievable after the call with the null argument (answer `{}`)", h.last_reply),
+        );
+    }
+}
+
+// ------------------------------------------------------------------------------------------------
+// sanitizer runs (thorough)
+// ------------------------------------------------------------------------------------------------
+#[derive(Clone, Debug)]
+enum Sanitizer {
+    Asan(String),
+    Valgrind(String),
+    None(String),
+}
+
+static SANITIZER: OnceLock<Sanitizer> = OnceLock::new();
+
+fn verif_root() -> String {
+    std::env::var("VERIF_ROOT").unwrap_or_else(|_| "/verif".to_string())
+}
+
+fn sanitizer() -> &'static Sanitizer {
+    SANITIZER.get_or_init(|| {
+        let root = verif_root();
+        let target = format!("{root}/.cache/asan-target");
+        let bin = format!("{target}/x86_64-unknown-linux-gnu/release/hsverif");
+        let r = Command::new("cargo")
+            .args([
+                "+nightly",
+                "build",
+                "--release",
+                "--offline",
+                "-Zbuild-std",
+                "--target",
+                "x86_64-unknown-linux-gnu",
+            ])
+            .current_dir(format!("{root}/harness"))
+            .env("RUSTFLAGS", "-Zsanitizer=address --cfg libhaystack_verif -Awarnings")
+            .env("CARGO_TARGET_DIR", &target)
+            .env("CARGO_NET_OFFLINE", "true")
+            .env_remove("RUST_BACKTRACE")
+            .output();
+        let why = match r {
+            Ok(o) if o.status.success() && std::path::Path::new(&bin).exists() => return Sanitizer::Asan(bin),
+            Ok(o) => String::from_utf8_lossy(&o.stderr).chars().rev().take(400).collect::<String>().chars().rev().collect(),
+            Err(e) => e.to_string(),
+        };
+        // fallback: valgrind memcheck on this very binary
+        let me = std::env::current_exe().map(|p| p.to_string_lossy().to_string()).unwrap_or_default();
+        match Command::new("valgrind").arg("--version").output() {
+            Ok(o) if o.status.success() && !me.is_empty() => Sanitizer::Valgrind(me),
+            _ => Sanitizer::None(why),
+        }
+    })
+}
+
+/// runs one case in the sanitized child; Some(report) when the sanitizer (or the child) complained
+fn sanitized(label: &str, input: &str, tag: &str) -> Option<String> {
+    let dir = format!("{}/.cache/run/C18-asan-{}-{tag}", verif_root(), std::process::id());
+    let _ = std::fs::create_dir_all(&dir);
+    let cur = format!("{dir}/current");
+    let _ = std::fs::remove_file(&cur);
+    let mut cmd = match sanitizer() {
+        Sanitizer::Asan(bin) => {
+            let mut c = Command::new(bin);
+            c.env("ASAN_OPTIONS", "detect_leaks=1:exitcode=23:abort_on_error=0:allocator_may_return_null=1");
+            c.env("LSAN_OPTIONS", "exitcode=23");
+            c
+        }
+        Sanitizer::Valgrind(bin) => {
+            let mut c = Command::new("valgrind");
+            c.args(["-q", "--error-exitcode=23", "--leak-check=full", "--errors-for-leak-kinds=definite,indirect", bin]);
+            c
+        }
+        Sanitizer::None(_) => return None,
+    };
+    cmd.args(["replay", "C18", label, input, &dir])
+        .env("C18_CURRENT", &cur)
+        .env("VERIF_CASE_TIMEOUT_MS", "600000")
+        .env_remove("RUST_BACKTRACE");
+    let o = match cmd.output() {
+        Ok(o) => o,
+        Err(e) => return Some(format!("cannot start the sanitized harness: {e}")),
+    };
+    let err = String::from_utf8_lossy(&o.stderr).to_string();
+    let child_fails = std::fs::read_to_string(format!("{dir}/fails.jsonl")).unwrap_or_default();
+    let current = std::fs::read_to_string(&cur).unwrap_or_default();
+    let _ = std::fs::remove_dir_all(&dir);
+    let complained = !o.status.success()
+        || err.contains("AddressSanitizer")
+        || err.contains("LeakSanitizer")
+        || err.contains("ERROR SUMMARY")
+        || !child_fails.trim().is_empty();
+    if !complained {
+        return None;
+    }
+    let report: String = err.lines().filter(|l| !l.trim().is_empty()).take(14).collect::<Vec<_>>().join(" / ");
+    Some(format!(
+        "exit status {:?}; history in progress: `{}`; oracle failures in the child: {}; report: {}",
+        o.status.code(),
+        current.trim(),
+        child_fails.lines().next().unwrap_or("-"),
+        report.chars().take(1500).collect::<String>()
+    ))
+}
+
+fn batch_histories(seed: u64, n: u64) -> Vec<String> {
+    let mut rng = Rng::new(seed ^ 0xC18A5A);
+    (0..n)
+        .map(|_| {
+            let mut r = rng.fork();
+            let len = 10 + r.below(41) as usize;
+            c17::show_history(&c17::random_history(&mut r, len))
+        })
+        .collect()
+}
+
+fn parse_batch(input: &str) -> Option<(u64, u64)> {
+    let mut it = input.split_whitespace();
+    Some((it.next()?.parse().ok()?, it.next()?.parse().ok()?))
+}
+
+pub fn exec(label: &str, input: &str, out: &mut CaseOut) {
+    match label {
+        "hist" | "tour" => {
+            exec_hist(input, out, true);
+        }
+        "null" => exec_null(input, out),
+        "nulltable" => {
+            let pairs: Vec<String> = null_pairs().iter().map(|(f, ord, _)| format!("{}:{ord}", FUNCS[*f].0)).collect();
+            out.req(format!("C18 nulltable {}", pairs.join(" ")), format!("ok {}", pairs.len()));
+            out.nontrivial = true;
+        }
+        "asanbatch" => {
+            // inside the sanitized child
+            let (seed, n) = match parse_batch(input) {
+                Some(x) => x,
+                None => return out.fail("harness", "bad asanbatch input".into()),
+            };
+            let cur = std::env::var("C18_CURRENT").ok();
+            for hist in batch_histories(seed, n) {
+                if let Some(p) = &cur {
+                    let _ = std::fs::write(p, &hist);
+                }
+                exec_hist(&hist, out, false);
+            }
+            if let Some(p) = &cur {
+                let _ = std::fs::write(p, "(all histories of the batch ran; report at exit)");
+            }
+        }
+        "asan" => {
+            let (seed, n) = match parse_batch(input) {
+                Some(x) => x,
+                None => return out.fail("harness", "bad asan input".into()),
+            };
+            match sanitizer() {
+                Sanitizer::None(why) => {
+                    out.stat("sanitizer:unavailable");
+                    let _ = why;
+                    return;
+                }
+                Sanitizer::Asan(_) => out.stat("sanitizer:asan"),
+                Sanitizer::Valgrind(_) => out.stat("sanitizer:valgrind"),
+            }
+            out.nontrivial = true;
+            if let Some(report) = sanitized("asanbatch", input, "b") {
+                // find the history: run the batch one by one
+                for hist in batch_histories(seed, n) {
+                    if let Some(r1) = sanitized("hist", &hist, "s") {
+                        out.fail("asan", format!("history `{hist}`: {r1}"));
+                        return;
+                    }
+                }
+                out.fail("asan", format!("batch {input}: {report}"));
+            }
+            for _ in 0..n {
+                out.stat("sanitized_history");
+            }
+        }
+        _ => out.fail("harness", format!("unknown C18 label {label}")),
+    }
+}
+
+pub fn generate(ctx: &mut Ctx) {
+    ctx.case("nulltable", "-");
+    ctx.case("tour", &c17::show_history(&c17::tour()));
+    // every (function, pointer parameter) with null
+    for (f, ord, pos) in null_pairs() {
+        match null_history(f, pos) {
+            Some(calls) => ctx.case("null", &c17::show_history(&calls)),
+            None => ctx.case("null", &format!("missing-template {} {ord}", FUNCS[f].0)),
+        }
+    }
+    // histories under the counting allocator
+    let n = ctx.n(2000, 20_000);
+    for _ in 0..n {
+        let mut rng = ctx.rng.fork();
+        let len = 10 + rng.below(41) as usize;
+        let calls = c17::random_history(&mut rng, len);
+        ctx.case("hist", &c17::show_history(&calls));
+    }
+    // the same kind of histories under AddressSanitizer + LeakSanitizer
+    if !ctx.quick() {
+        let _ = sanitizer(); // built outside of any case (no watchdog)
+        let batches = 60;
+        for _ in 0..batches {
+            let seed = ctx.rng.next() % 1_000_000_007;
+            ctx.case("asan", &format!("{seed} 50"));
+        }
+    }
+}
